@@ -7,6 +7,7 @@ mod util;
 
 mod c09;
 mod c14;
+mod c15;
 mod c16;
 mod stk;
 
@@ -30,6 +31,7 @@ fn scenarios(prop: &str, tier: &str) -> Vec<Scenario> {
     match prop {
         "C09" => c09::scenarios(tier),
         "C14" => c14::scenarios(tier),
+        "C15" => c15::scenarios(tier),
         "C16" => c16::scenarios(tier),
         _ => vec![],
     }
